@@ -118,11 +118,50 @@ def r06c(ctx, P):
             ctx.ob(rid, o.key.replace("R01.f", "R06.c"), o.ok, o.what, o.where, o.detail)
 
 
+def r06d(ctx, P):
+    rid = "R06.d"
+    import re
+    ctx.rule(rid, "UNLINK SEMANTICS of every storage backend: an open reader keeps reading the files it opened while compaction removes "
+                  "them (R06.a/b rely on it; on disk an unlinked file stays readable). In every `Storage::remove` / `remove_dir_all` "
+                  "implementation of the crate, and in what it reaches inside the crate, the only lock taken for writing is the "
+                  "directory map, and no byte buffer (`Vec<u8>`) is locked for writing or mutated: removal drops the entry, never the "
+                  "contents that open handles share")
+    impls = [f for q, f in sorted(P.fns.items()) if f.crate == "searchlite_core" and (f.impl_trait or "").endswith("storage::Storage") and
+             q.rsplit("::", 1)[1] in ("remove", "remove_dir_all") and not is_test_or_bench(f)]
+    ctx.floor(rid, len(impls), 4, "Storage::remove / remove_dir_all implementations (filesystem, in-memory)")
+    map_locks = 0
+    for f in impls:
+        ctx.saw(f)
+        scope = {f.path} | {c.path for c in P.closures_of(f)}
+        for q in list(scope):
+            scope |= {x for x in P.reach(q) if x in P.fns and P.fns[x].crate == "searchlite_core"}
+        bad = []
+        for q in sorted(scope):
+            g = P.fns[q]
+            for b, t in g.calls():
+                cal = callee_of(t)
+                recv_ty = g.local_ty(op_local(t["args"][0])) if t["args"] and op_local(t["args"][0]) is not None else ""
+                if re.search(r"RwLock::<R, T>::(write|upgradable_read)$|Mutex::<R, T>::lock$", cal):
+                    if "Vec<u8>" in recv_ty and "HashMap" not in recv_ty:
+                        bad.append((Site(g, b), "locks a file's byte buffer for writing"))
+                    else:
+                        map_locks += 1
+                if re.search(r"Vec::<T, A>::(clear|truncate|drain|resize|shrink_to_fit|shrink_to|extend_from_slice|push|set_len|split_off|retain)$", cal) and \
+                        "Vec<u8>" in recv_ty:
+                    bad.append((Site(g, b), "mutates a file's byte buffer (%s)" % cal.rsplit("::", 1)[1]))
+        ctx.ob(rid, "%s:%s" % (rid, f.short), not bad,
+               "removal only drops the directory entry" if not bad else
+               "%s %s at %s: handles opened before the removal share that buffer, so a reader that was opened before a compaction "
+               "loses the contents of its snapshot" % (f.short, bad[0][1], bad[0][0].loc()), bad[0][0].loc() if bad else "%s:%s" % (f.file, f.line))
+    ctx.floor(rid + ".detector", map_locks, 1, "write-lock acquisitions seen in the removal code (the directory map)")
+
+
 def run(ctx, progs):
     P = progs.get("default")
     r06a(ctx, P)
     r06b(ctx, P)
     r06c(ctx, P)
+    r06d(ctx, P)
     if ctx.tier == "thorough":
         ctx.config = "features"
         Pf = progs.get("features")
